@@ -551,14 +551,17 @@ def dispatcher(it, loc):
     others = lambda keep: ' && '.join(f'final(sections).{f} == old(sections).{f}' for f in SECTION_FIELDS
                                       if f not in keep and not (loc and f in [k + '_fixups' for k in keep]))
     HB = 'have_base_address'
+    # location lists: the frame pins WHICH fix-up queue receives the entry references of the expressions (C15: "every entry
+    # reference resolving to the intended entry ... in location lists"): only the written section's own queue may change
+    C15 = '[C15:loclist-fixup-queue]' if loc else ''
     it.splice('write', ret='res', ensures=[
         f'[C16:dispatch-empty] {N} == 0 ==> (res matches Ok(o) && o.offs().len() == 0) && {others([])} && {O1} == {O0} && {N1} == {N0}',
         f'[C16:dispatch-unsupported-version] {N} > 0 && !(2 <= encoding.version <= 5) ==> res == Err::<{OT}, Error>(Error::UnsupportedVersion(encoding.version)) '
         f'&& {others([])} && {O1} == {O0} && {N1} == {N0}',
-        f'[C16:dispatch-pair] {N} > 0 && 2 <= encoding.version <= 4 ==> {others([old_s])} && (res matches Ok(o) ==> '
+        f'[C16:dispatch-pair]{C15} {N} > 0 && 2 <= encoding.version <= 4 ==> {others([old_s])} && (res matches Ok(o) ==> '
         f'wrote({O0}, {O1}, {P}_pair_upto({LISTS}, {N}, 0, {S}{xs(old_s)})) && (forall|i: int| 0 <= i < {N} ==> {P}_pair_list_ok((#[trigger] {LISTS}[i]).0@, {HB})) '
         f'&& o.offs().len() == {N} && (forall|i: int| 0 <= i < {N} ==> (#[trigger] o.offs()[i]).0 as nat == {O0}.len + {P}_pair_len({LISTS}, i, 0, {S}{X})))',
-        f'[C16:dispatch-coded] {N} > 0 && encoding.version == 5 ==> {others([new_s])} && (res matches Ok(o) ==> '
+        f'[C16:dispatch-coded]{C15} {N} > 0 && encoding.version == 5 ==> {others([new_s])} && (res matches Ok(o) ==> '
         f'wrote({N0}, {N1}, {P}_{V}_upto({LISTS}, {N}, 0, {S}{xs(new_s)}, encoding).push(lists_length_patch(encoding, {N0}.len, {N1}.len))) '
         f'&& o.offs().len() == {N} && (forall|i: int| 0 <= i < {N} ==> (#[trigger] o.offs()[i]).0 as nat == {N0}.len + {P}_{V}_len({LISTS}, i, 0, {S}{X}, encoding)))',
     ])
